@@ -301,6 +301,9 @@ def runScenario (infoOf : AMsg → MsgInfo) (line : String) : List String :=
   | [] => ["BAD"]
   | cfg :: evs =>
     let (st, _) := parseCfg ((cfg.drop 5).toString.trimAscii.toString)
+    -- `noval=1`: the node option validate_received_request_avps is off -- no received request is found incomplete
+    let noval := ((cfg.drop 5).toString.splitOn ";").any (fun x => x.trimAscii.toString == "noval=1")
+    let infoOf : AMsg → MsgInfo := if noval then (fun m => { infoOf m with missing := [], validateRaises := false }) else infoOf
     let sm : Sim := { w := { st := st }, infoOf := infoOf }
     let sm := (evs.filter (· != "")).foldl (fun sm e => event sm e) sm
     sm.lines
